@@ -10,6 +10,8 @@ CONSTANTS
   ShapeRem = 0
   MaxLevel = 4
 INVARIANT TreeOK
+INVARIANT NamesUnique
+PROPERTY CreatedNameIsFresh
 PROPERTY StepPreserves
 PROPERTY TipsIntended
 PROPERTY MidpointCentred
